@@ -84,6 +84,8 @@ class Net(object):
     def select(self, r, w, x, timeout=None):
         if self.limit_events is not None and len(self.log) > self.limit_events:
             raise Runaway("more than %d socket/clock events" % self.limit_events)
+        if timeout is not None and timeout < 0:
+            raise ValueError("timeout must be non-negative")        # what select.select does
         if self.readable():
             self.log.append(("select", True))
             return (list(r), [], [])
